@@ -8,6 +8,7 @@ import (
 	"runtime"
 	"syscall"
 
+	"github.com/feichai0017/NoKV/verifhook"
 	"github.com/feichai0017/NoKV/vfs"
 )
 
@@ -79,6 +80,7 @@ func (l *DirLock) Release() error {
 	if err := l.file.Close(); err != nil && firstErr == nil {
 		firstErr = err
 	}
+	verifhook.Yield(l, "dirlock.release.unlocked")
 	fs := vfs.Ensure(l.fs)
 	if err := fs.Remove(l.path); err != nil && !errors.Is(err, os.ErrNotExist) && firstErr == nil {
 		firstErr = err
